@@ -73,4 +73,40 @@ func init() {
 		}
 		return "ok"
 	})
+
+	// c12.redecl: one element type name used by two horizontal lists whose sub-field `ID` carries a range — the same
+	// one, or another one per list (protogen may refuse the conflicting redeclaration; if it accepts, each column
+	// keeps its own constraint).   c12.redecl <lo1> <hi1> <lo2> <hi2> <v1> <v2>  → protoerr | ok | err <code>
+	regStream("e2e.C12.redeclared", func(r *rand.Rand, n int, emit func(string, ...string)) {
+		for i := 0; i < n; i++ {
+			lo1, hi1 := 1+r.Intn(3), []int{10, 100, 1000}[r.Intn(3)]
+			lo2, hi2 := lo1, hi1
+			if r.Intn(3) != 0 {
+				lo2, hi2 = 1+r.Intn(3), []int{10, 100, 1000}[r.Intn(3)]
+			}
+			pick := func(lo, hi int) int {
+				return []int{lo, hi, lo + r.Intn(hi-lo+1), hi + 1, hi * 5, 500, 50}[r.Intn(7)]
+			}
+			emit("c12.redecl", strconv.Itoa(lo1), strconv.Itoa(hi1), strconv.Itoa(lo2), strconv.Itoa(hi2), strconv.Itoa(pick(lo1, hi1)), strconv.Itoa(pick(lo2, hi2)))
+		}
+	})
+	regImpl("c12.redecl", func(a []string) string {
+		rows := [][]string{
+			{"ID", "Item1ID", "Item1Num", "Reward1ID", "Reward1Num"},
+			{"map<uint32, Shop>", "[Item]uint32|{range:\"" + a[0] + "," + a[1] + "\"}", "int32", "[Item]uint32|{range:\"" + a[2] + "," + a[3] + "\"}", "int32"},
+			{"id", "i", "n", "i", "n"},
+			{"1", a[4], "7", a[5], "8"},
+		}
+		w := newWorkspace()
+		defer w.cleanup()
+		w.writeCSVBook("", bookSpec{Name: "Book", Sheets: []sheetSpec{{Name: "ShopConf", Rows: rows}}})
+		ro := runOpts{}
+		if err := w.genProto(ro); err != nil {
+			return "protoerr"
+		}
+		if err := w.genConf(ro); err != nil {
+			return "err " + errCode(err)
+		}
+		return "ok"
+	})
 }
